@@ -22,7 +22,7 @@ META = {
 GEN = ['eosfull']
 MODULES = ['TamocV.Props.C10Gen', 'TamocV.Props.C10', 'TamocV.Model.Eos', 'TamocV.Gen.EosFullPy']
 RULE = ('mixtures of 2-6 database compounds (water excluded from flashes), random permutation (every permutation class reachable), '
-        'scale factor log-uniform 1e-6..1e3, appended compound of zero mass, 270-400 K, 1e5-5e7 Pa, zero/constant/group-contribution '
+        'scale factor log-uniform 1e-6..1e3, compound of zero mass inserted at a random position (also first), user volume shifts for all, none or SOME compounds, 270-400 K, 1e5-5e7 Pa, zero/constant/group-contribution '
         'delta, Lin-Duan / user Peneloux; non-trivial = distinct (composition, permutation, delta mode, rounded state)')
 LEVEL_NOTE = META['note']
 FLASH_TOL = 5e-5
@@ -50,7 +50,7 @@ def timed(f, secs=8):
         signal.alarm(0)
 
 
-def rebuild(fm, desc, order=None, extra=None, delta=None):
+def rebuild(fm, desc, order=None, extra=None, delta=None, pos=None, extra_shift=True):
     """new FluidMixture with the components re-ordered (order) or with an appended compound"""
     from tamoc import dbm
     comp = list(desc['composition'])
@@ -61,16 +61,18 @@ def rebuild(fm, desc, order=None, extra=None, delta=None):
         if desc['delta_mode'] == 'const':
             kw['delta'] = fm.delta[np.ix_(order, order)].copy()
     else:
-        comp2 = comp + [extra]
+        pos = n if pos is None else pos
+        comp2 = comp[:pos] + [extra] + comp[pos:]
         if desc['delta_mode'] == 'const':
+            keep = [k for k in range(n + 1) if k != pos]
             d = np.zeros((n + 1, n + 1))
-            d[:n, :n] = fm.delta
+            d[np.ix_(keep, keep)] = fm.delta
             kw['delta'] = d
     if desc['delta_mode'] == 'groups':
         kw['delta_groups'] = {}
     if desc['peneloux']:
         ud = dict(fm.user_data)
-        if extra is not None and extra not in ud:
+        if extra is not None and extra not in ud and extra_shift:
             from tamoc import chemical_properties as cp
             chem, _cu, bio, _bu, _pj, _pju = cp.tamoc_data()
             props = dict(chem[extra])
@@ -115,7 +117,8 @@ def run(ctx, lean_ok):
     for _ in range(ncase):
         n = r.randint(2, 6)
         comp = mixgen.composition(r, n, n, exclude=('water',))
-        fm, d = mixgen.mixture(r, comp=comp)
+        # a quarter of the mixtures carry user volume shifts for SOME compounds only (the others keep C_pen = 0)
+        fm, d = mixgen.mixture(r, comp=comp, peneloux=('partial' if r.random() < 0.25 else None))
         m = mixgen.masses(r, n)
         T = r.uniform(270., 400.)
         P = math.exp(r.uniform(math.log(1e5), math.log(5e7)))
@@ -129,11 +132,60 @@ def run(ctx, lean_ok):
         ctx.sample(case)
         ctx.nontrivial.add((tuple(comp), tuple(order), d['delta_mode'], round(T, 2), round(math.log(P), 2)))
         ctx.count('%s:n%d%s' % (d['delta_mode'], n, ':pen' if d['peneloux'] else ''))
+        pos = r.randint(0, n)        # the zero-mass compound is inserted anywhere, also FIRST
+        extra_shift = (not d.get('peneloux_partial')) or r.random() < 0.5
+        case.update(zero_position=pos, peneloux_partial=bool(d.get('peneloux_partial')), extra_shift=extra_shift)
+        if d.get('peneloux_partial'):
+            ctx.count('peneloux:partial')
+        ctx.count('zero-component:' + ('first' if pos == 0 else 'last' if pos == n else 'middle'))
         fmp = rebuild(fm, d, order=order)
-        fmz = rebuild(fm, d, extra=extra)
+        fmz = rebuild(fm, d, extra=extra, pos=pos, extra_shift=extra_shift)
         mp_ = m[order]
-        mz = np.append(m, 0.)
+        mz = np.insert(m, pos, 0.)
         inv = np.argsort(order)      # position of original component k in the permuted list
+
+        def drop(a):
+            return np.delete(np.asarray(a), pos, axis=1)
+
+        def switch_differs(fv):
+            """signature of the recorded defect: the volume-translation switch `C_pen[0] == 0.` (dbm_p.volume_trans
+            l.985 / dbm_eos.f95 l.233) looks at the FIRST component only, so with user shifts for some compounds only
+            the branch depends on which compound is listed first"""
+            return bool((fm.C_pen[0] == 0.) != (fv.C_pen[0] == 0.))
+
+        class forced_branch:
+            """evaluate the variant mixture with the volume-translation branch of the BASE mixture forced"""
+            def __init__(self, fv):
+                self.fv = fv
+            def __enter__(self):
+                self.old = self.fv.C_pen
+                if fm.C_pen[0] == 0.:
+                    self.fv.C_pen = np.zeros_like(self.old)          # Lin-Duan branch for all, as in the base
+                else:
+                    c = self.old.copy()
+                    c[0] = 1e-300                                     # user branch, first shift still (numerically) zero
+                    self.fv.C_pen = c
+                return self.fv
+            def __exit__(self, *a):
+                self.fv.C_pen = self.old
+
+        def cmp_vt(name, fget, fv, mv, kind):
+            """comparison of a quantity that depends on the volume translation"""
+            bv = fget(fm, m)
+            vv = fget(fv, mv)
+            if not switch_differs(fv):
+                cmp(name, bv, vv, tol, case, kind)
+                return
+            ctx.count('peneloux:first-component-switch-differs')
+            with forced_branch(fv) as fvf:
+                fo = fget(fvf, mv)
+            cmp(name, bv, fo, tol, case, kind + '(volume-translation branch of the base forced)')
+            a_, b_ = np.asarray(bv, dtype=float).ravel(), np.asarray(vv, dtype=float).ravel()
+            if a_.shape != b_.shape or not np.all(np.abs(a_ - b_) <= tol * np.maximum(np.abs(a_), np.abs(b_))):
+                ctx.count('found:peneloux-switch-first-component')
+                ctx.violation('peneloux-switch-first-component', '%s changes under %s: the Peneloux / Lin-Duan switch tests the first '
+                              'component only' % (name, kind), dict(case, quantity=name, base=a_.tolist(), variant=b_.tolist(),
+                                                                     C_pen_base=fm.C_pen.tolist(), C_pen_variant=fv.C_pen.tolist()))
 
         def q(f, mm):
             with np.errstate(all='ignore'):
@@ -151,12 +203,16 @@ def run(ctx, lean_ok):
         tol = 1e-9
         for k in ('density', 'viscosity', 'interface_tension'):
             cmp(k, base[k], sc[k], tol, case, 'scaling')
-            cmp(k, base[k], pe[k], tol, case, 'permutation')
-            cmp(k, base[k], ze[k], tol, case, 'zero-component')
+        cmp('viscosity', base['viscosity'], pe['viscosity'], tol, case, 'permutation')
+        cmp('viscosity', base['viscosity'], ze['viscosity'], tol, case, 'zero-component')
+        with np.errstate(all='ignore'):
+            for fv, mv, kind in ((fmp, mp_, 'permutation'), (fmz, mz, 'zero-component')):
+                cmp_vt('density', lambda f, mm: f.density(mm.copy(), T, P), fv, mv, kind)
+                cmp_vt('interface_tension', lambda f, mm: f.interface_tension(mm.copy(), T, S, P), fv, mv, kind)
         for k in ('fugacity', 'solubility'):
             cmp(k, base[k], sc[k], tol, case, 'scaling')
             cmp(k, base[k], np.asarray(pe[k])[:, inv], tol, case, 'permutation')
-            cmp(k, base[k], np.asarray(ze[k])[:, :n], tol, case, 'zero-component')
+            cmp(k, base[k], drop(ze[k]), tol, case, 'zero-component')
         # ---- flash (solver tolerance); time-boxed: rare very slow flashes are a C02 matter
         try:
             with np.errstate(all='ignore'):
@@ -190,7 +246,7 @@ def run(ctx, lean_ok):
             if 0 < b0 < 1:
                 cmp('equilibrium.xi', x0, e1[1], FLASH_TOL * 20, case, 'scaling')
                 cmp('equilibrium.xi', x0, np.asarray(e2[1])[:, inv], FLASH_TOL * 20, case, 'permutation')
-                cmp('equilibrium.xi', x0, np.asarray(e3[1])[:, :n], FLASH_TOL * 20, case, 'zero-component')
+                cmp('equilibrium.xi', x0, drop(e3[1]), FLASH_TOL * 20, case, 'zero-component')
         except Timeout:
             nslow += 1
             ctx.count('flash:timed-out(skipped)')
@@ -206,10 +262,15 @@ def run(ctx, lean_ok):
                     rh0 = part.density(m.copy(), T, P)
                     rh1 = part.density(lam * m, T, P)
                 if np.isfinite(de0) and np.isfinite(rh0):
+                    ctx.count('particle:compared')
                     cmp('particle.diameter', [de0 * lam ** (1. / 3.)], [de1], 1e-9, case, 'scaling(cube-root)')
                     cmp('particle.density', [rh0], [rh1], 1e-9, case, 'scaling')
-            except Exception as ex:   # a raising entry point is C20's matter; note it
+                else:
+                    ctx.count('particle:non-finite(skipped)')
+            except Exception as ex:   # the particle call raised on a valid state: no invariance can hold
                 ctx.count('particle-raised:' + type(ex).__name__)
+                ctx.violation('particle-raised:' + type(ex).__name__, 'FluidParticle.diameter/density raised %r' % (ex,),
+                              dict(case, fp_type=fp_type))
         # ---- Fortran back end (ctypes): same metamorphic relations on density / fugacity / viscosity
         if F is not None:
             def fq(f, mm):
@@ -222,11 +283,13 @@ def run(ctx, lean_ok):
             fb, fs, fpm, fz = fq(fm, m), fq(fm, lam * m), fq(fmp, mp_), fq(fmz, mz)
             for k in ('density', 'viscosity'):
                 cmp('fortran.' + k, fb[k], fs[k], tol, case, 'scaling')
-                cmp('fortran.' + k, fb[k], fpm[k], tol, case, 'permutation')
-                cmp('fortran.' + k, fb[k], fz[k], tol, case, 'zero-component')
+            cmp('fortran.viscosity', fb['viscosity'], fpm['viscosity'], tol, case, 'permutation')
+            cmp('fortran.viscosity', fb['viscosity'], fz['viscosity'], tol, case, 'zero-component')
+            for fv, mv, kind in ((fmp, mp_, 'permutation'), (fmz, mz, 'zero-component')):
+                cmp_vt('fortran.density', lambda f, mm: fq(f, mm)['density'], fv, mv, kind)
             cmp('fortran.fugacity', fb['fugacity'], fs['fugacity'], tol, case, 'scaling')
             cmp('fortran.fugacity', fb['fugacity'], np.asarray(fpm['fugacity'])[:, inv], tol, case, 'permutation')
-            cmp('fortran.fugacity', fb['fugacity'], np.asarray(fz['fugacity'])[:, :n], tol, case, 'zero-component')
+            cmp('fortran.fugacity', fb['fugacity'], drop(fz['fugacity']), tol, case, 'zero-component')
         # ---- model correspondence: mole fractions
         lines.append(req('Eos.moleFraction', m, fm.M))
         exp.append(list(dbm_p.mole_fraction(m, fm.M)))
@@ -234,6 +297,12 @@ def run(ctx, lean_ok):
         F.close()
     ctx.notes.append('flashes skipped because they exceeded the time box (C02 matter): %d' % nslow)
     ctx.oblige('coverage floor: at most 10 %% of the flashes time-boxed (%d of %d)' % (nslow, ncase), nslow <= 0.1 * ncase)
+    npc = ctx.hist.get('particle:compared', 0)
+    ctx.oblige('coverage floor: at least %d particle diameter/density comparisons (got %d)' % (ncase, npc), npc >= ncase)
+    npp = ctx.hist.get('peneloux:partial', 0)
+    ctx.oblige('coverage floor: at least 10 mixtures with user volume shifts for some compounds only (got %d)' % npp, npp >= 10)
+    nzf = ctx.hist.get('zero-component:first', 0)
+    ctx.oblige('coverage floor: at least 10 zero-mass compounds inserted first (got %d)' % nzf, nzf >= 10)
     ntwo = ctx.hist.get('flash:two-phase', 0)
     ctx.oblige('coverage floor: at least 10 two-phase flashes compared (got %d)' % ntwo, ntwo >= 10)
     for mode in ('zero', 'const', 'groups'):
